@@ -317,6 +317,16 @@ Theorem C04_stable_swap_in_rounding_direction : forall p i j o fee tin,
 Proof. exact s_calc_in_direction. Qed.
 Print Assumptions C04_stable_swap_in_rounding_direction.
 
+(* single-asset join (binary search over share counts): the minted share count is a probe whose estimate - exit those shares
+   from the enlarged pool at zero exit fee and swap every other token back into the joined token at zero spread factor, with the
+   pool's own integer arithmetic - is at most the tokens paid in (after the join's spread factor) and within one unit of them:
+   the round trip join -> exit -> swap back never returns more than was paid *)
+Theorem C04_stable_single_join_estimate_le_paid : forall p i a s,
+  binary_search_single_asset_join p i a = Ok s ->
+  exists out, estimate_coin_out p i a s = Ok out /\ out <= a <= out + 1.
+Proof. exact single_join_estimate_le_paid. Qed.
+Print Assumptions C04_stable_single_join_estimate_le_paid.
+
 (* "for every stableswap pool a swap never lowers the pool's invariant at all": the full statement, on the exact invariant
    prod(R_i/sf_i) * sum((R_i/sf_i)^2) of the recorded reserves ... *)
 Definition C04_stable_full : Prop := forall p i j amt fee r p',
@@ -363,7 +373,8 @@ Print Assumptions C04_no_profit_join_exit.
    proved is listed above.  Remaining gaps: (1) sequences that contain swaps or single-asset joins/exits - for balancer they
    rest on the Pow accuracy hypothesis (C04_balancer_swap_value_partial covers one exact-in swap), for stableswap on the
    explicit rounding term of C04_stable_swap_k_partial; the oracle checks them on executed round trips instead;
-   (2) the stableswap single-asset join (binary search over share counts): modelled and corresponded, no theorem. *)
+   (2) the stableswap single-asset join: only the search's post-condition (C04_stable_single_join_estimate_le_paid) is proved,
+   not a bound on the invariant per share (the oracle checks one with unit slack). *)
 
 (* non-vacuity: an unbalanced 3-asset pool, a join that is not in ratio (two coins leave a remainder),
    an exit with a 1% exit fee *)
